@@ -118,6 +118,9 @@ def foreach_key(I, st, it):
     dom = it.dom
     # (1) initiation
     L = LoopCtx(I, entry, fr.env, lambda k: FALSE, dom, it)
+    if hasattr(lc, "init_hints"):
+        for cl in lc.init_hints(L):
+            C.prove_clause(I, pfx + "init::lemma::", cl)
     for cl in lc.inv(L):
         C.prove_clause(I, pfx + "init::", cl)
     mode = I.choice(2)
@@ -145,6 +148,7 @@ def foreach_key(I, st, it):
             raise Unsupported("break in a contract loop")
         # the body must not change the domain being iterated (python would raise RuntimeError)
         L2 = LoopCtx(I, entry, fr.env, lambda x: z3.Or(x == k, donef(x)), dom, it)
+        L2.done_before = done
         if hasattr(lc, "step_hints"):
             for cl in lc.step_hints(L2, k, start):
                 C.prove_clause(I, pfx + "preserve::lemma::", cl)
